@@ -89,6 +89,10 @@ mod imp {
     pub fn trail() -> String {
         sym::trail()
     }
+    pub fn choose(n: usize) -> usize {
+        sym::choose(n)
+    }
+    pub fn set_choices(_v: &serde_json::Value) {}
     pub fn pc() -> Vec<String> {
         sym::pc_strings()
     }
@@ -225,6 +229,24 @@ mod imp {
     }
     pub fn trail() -> String {
         String::new()
+    }
+    thread_local! {
+        static CHOICES: RefCell<Vec<usize>> = const { RefCell::new(Vec::new()) };
+    }
+    /// replay: the recorded choice sequence of the leaf (opts.choices), consumed in order
+    pub fn set_choices(v: &serde_json::Value) {
+        CHOICES.with(|c| {
+            let mut c = c.borrow_mut();
+            c.clear();
+            if let Some(a) = v.as_array() {
+                for x in a.iter().rev() {
+                    c.push(x.as_u64().unwrap_or(0) as usize);
+                }
+            }
+        });
+    }
+    pub fn choose(n: usize) -> usize {
+        CHOICES.with(|c| c.borrow_mut().pop().unwrap_or(0)).min(n.saturating_sub(1))
     }
     pub fn pc() -> Vec<String> {
         vec![]
